@@ -182,6 +182,22 @@ pub fn record(seed: u64, n: usize, out: &str) {
         let b: Vec<Ent> = (0..m).map(|_| { let re = r.uniform(-2.0, 2.0); rand_ent(&mut r, re, &names, p_tag) }).collect();
         emit(&mut o, &format!("gauss/rnd/{}/{}-{}{}", i, f, kind, if lsq { "-lsq" } else { "" }), f, kind, &a, &b, lsq, &mut r);
     }
+    // tall systems of chosen SHAPES, least squares: single-column systems and every shape up to 12 x 6 whose element count
+    // is a perfect square (4x1, 9x1, 8x2, 12x3, 9x4 - where "rows x columns" cannot be told from the count alone), and two others
+    for (si, (m, nn)) in [(4usize, 1usize), (9, 1), (8, 2), (12, 3), (9, 4), (3, 1), (5, 2)].iter().enumerate() {
+        for (f, kind) in [("pydsolve", "D1"), ("pydsolve", "D2"), ("dsolve", "D1"), ("fdsolve", "D1")] {
+            let p_tag = 0.5;
+            let mut sigma: Vec<usize> = (0..*nn).collect();
+            r.shuffle(&mut sigma);
+            let a: Vec<Vec<Ent>> = (0..*m).map(|row| (0..*nn).map(|col| {
+                let strong = row < *nn && sigma[row] == col;
+                let re = if strong { r.uniform(2.0, 4.0) * if r.coin() { 1.0 } else { -1.0 } } else { r.uniform(-0.45, 0.45) };
+                rand_ent(&mut r, re, &names, if f == "fdsolve" { 0.0 } else { p_tag })
+            }).collect()).collect();
+            let b: Vec<Ent> = (0..*m).map(|_| { let re = r.uniform(-2.0, 2.0); rand_ent(&mut r, re, &names, p_tag) }).collect();
+            emit(&mut o, &format!("gauss/shape/{}/{}x{}/{}-{}-lsq", si, m, nn, f, kind), f, kind, &a, &b, true, &mut r);
+        }
+    }
     eprintln!("gauss record: {} events", o.finish());
 }
 
